@@ -289,6 +289,34 @@ def run_case(case, stats):
             if bad:
                 raise Violation("rows-differ", f"{bad}; result {res}; {ctx}", opts=label, final=final[0], moved=moved)
             stats.c["compared"] += 1
+        # a user-defined operation (extension point: RowFilter subclass that keeps the base-class commute()) requested
+        # with a preferred engine: it cannot be moved, so it must end up in the tree (or the call must raise EngineError)
+        if not preprocess:
+            flt = custom_filter()(2)
+            for pref in (p for p in (S, third) if p != 0):
+                for bits in range(8):
+                    o = dict(preferred_engine=env.engines[pref], backtrack=bool(bits & 1), transfer=bool(bits & 2), require_preferred_engine=bool(bits & 4))
+                    label = f"preferred=E{pref} " + " ".join(f"{k}={v}" for k, v in o.items() if k != "preferred_engine")
+                    try:
+                        res = flt.apply(root, **o)
+                    except EngineError:
+                        stats.c["custom-op:EngineError"] += 1
+                        continue
+                    except Exception as e:
+                        raise Violation("call-raised", f"user-defined RowFilter: {type(e).__name__}: {str(e)[:300]}; {label}; {ctx0}", sig=exc_sig(e), opts=label, final="custom")
+                    from vf.core.prog import lib_nodes as _ln
+
+                    holders = [n for n in _ln(res) if getattr(n, "operation", None) == flt]
+                    if not holders:
+                        raise Violation(
+                            "operation-dropped",
+                            f"a user-defined RowFilter applied with {label} is nowhere in the returned tree {str(res)[:300]}; {ctx0}",
+                            opts=label,
+                            final="custom",
+                        )
+                    if o["require_preferred_engine"] and any(n.engine is not env.engines[pref] for n in holders):
+                        raise Violation("operation-outside-required-engine", f"user-defined RowFilter with {label} sits in {holders[0].engine}; result {str(res)[:300]}; {ctx0}", opts=label, final="custom")
+                    stats.c["custom-op:in-tree"] += 1
         # the same request on a *twin* tree: same engines, same leaf names and columns, other rows.  Relations compare
         # equal when they differ only in payloads, so anything memoised by equality would hand back the first tree.
         if not preprocess:
@@ -333,6 +361,43 @@ def run_case(case, stats):
             stats.mark_nontrivial(codec.digest(case), lambda: describe(case), cls=cls)
     finally:
         env.close()
+
+
+_CUSTOM_FILTER = None
+
+
+def custom_filter():
+    """RowFilter subclass "all rows if there are at least n" that does not override commute()."""
+    global _CUSTOM_FILTER
+    if _CUSTOM_FILTER is None:
+        import dataclasses
+
+        from lsst.daf.relation import RowFilter
+
+        @dataclasses.dataclass(frozen=True)
+        class AtLeastRows(RowFilter):
+            n: int
+
+            def __str__(self):
+                return f"atleast[{self.n}]"
+
+            @property
+            def is_order_dependent(self):
+                return False
+
+            @property
+            def is_count_dependent(self):
+                return True
+
+            @property
+            def is_empty_invariant(self):
+                return False
+
+            def applied_max_rows(self, target):
+                return target.max_rows
+
+        _CUSTOM_FILTER = AtLeastRows
+    return _CUSTOM_FILTER
 
 
 EXHAUSTIVE_NOTE = (
